@@ -84,3 +84,7 @@ CLAIMED["C20"] = (
  "table agreement lint over the emulators' per-mnemonic switch arms on the type-checked AST (operand views through conversion chains, ordering truth tables evaluated over {<,=,>}, decoder-filled raw fields vs. fields read, path-sensitive read-after-write of rd, guard/divisor agreement)",
  "Decides, for every implemented arm of the riscv64, riscv32 and loong64 emulators, that it reads only decoder-filled raw fields, has its format's operand signature, applies the mnemonic's operator through the signed/unsigned view of the right width, masks register shift amounts, sign-extends 32-bit results, transfers the mnemonic's width at rs1+imm with the mnemonic's extension, shifts upper immediates by 12, computes pc-relative targets and links from the executing pc, never reads a source after writing rd, and guards each division by a zero test of its own divisor. Does not decide instruction decode (C17), floating point, CSR/privileged behaviour, devices, or unimplemented instructions.",
  AST_BASE)
+CLAIMED["C16"] = (
+ "exhaustiveness and linkage lint: go/types interface-implementer enumeration vs. back-end type-switch arms; sibling agreement of basic-kind sub-switches; per-target symbol resolution of every constant call the back end emits, every reference inside the embedded .wat.ws runtime and every body-less .wa declaration (sources read with the repository's Wa parser and an own WAT reader), with the loader's file selection re-evaluated for each of the six target OSes",
+ "Decides that every SSA instruction type the builder constructs has a non-fatal back-end arm, that nil constants of every nil-able kind and named types of every supported basic kind are materialised, and that for each target OS every runtime symbol the back end or the runtime's own WAT refers to is defined with one signature across per-target files. Does not decide validity of emitted modules (operand typing, argument counts at call sites), feature combinations, or fatal paths inside arms.",
+ AST_BASE)
